@@ -165,6 +165,9 @@ COMMANDS = [
     ('cnfgen', ['op', 3, '-T', 'xorcomp', 4, 2]),
     ('cnfgen', ['op', 3, '-T', 'majcomp', 5, 3, '-T', 'shuffle']),
     ('cnfgen', ['kcolor', 3, 'complete', 3]),
+    ('cnfgen', ['php', 4, 3, '-T', 'xorcomp', 'glrd', 12, 5, 2]),
+    ('cnfgen', ['op', 3, '-T', 'majcomp', 'glrm', 6, 5, 12, '-T', 'shuffle']),
+    ('cnfgen', ['php', 3, 2, '-T', 'xorcomp', 'glrp', 6, 4, '.5']),
     ('cnfgen', ['kclique', 3, 'gnp', 6, '.5', 'plantclique', 3, 'addedges', 2, 'splitedges', 1]),
     ('cnfgen', ['php', 'glrd', 4, 4, 2, 'plantbiclique', 2, 2, 'addedges', 2]),
     ('pbgen', ['domset', 2, 'gnd', 6, 3, 'splitedges', 2, 'addedges', 2]),
@@ -539,7 +542,7 @@ def h_e_cmd_31(si: int) -> bool:
     pre: 0 <= si <= 3
     post: _
     """
-    # cnfgen kclique 3 gnp 6 .5 plantclique 3 addedges 2 splitedges 1
+    # cnfgen php 4 3 -T xorcomp glrd 12 5 2
     return _cmd(31, si)
 
 
@@ -548,7 +551,7 @@ def h_e_cmd_32(si: int) -> bool:
     pre: 0 <= si <= 3
     post: _
     """
-    # cnfgen php glrd 4 4 2 plantbiclique 2 2 addedges 2
+    # cnfgen op 3 -T majcomp glrm 6 5 12 -T shuffle
     return _cmd(32, si)
 
 
@@ -557,7 +560,7 @@ def h_e_cmd_33(si: int) -> bool:
     pre: 0 <= si <= 3
     post: _
     """
-    # pbgen domset 2 gnd 6 3 splitedges 2 addedges 2
+    # cnfgen php 3 2 -T xorcomp glrp 6 4 .5
     return _cmd(33, si)
 
 
@@ -566,7 +569,7 @@ def h_e_cmd_34(si: int) -> bool:
     pre: 0 <= si <= 3
     post: _
     """
-    # cnfgen -of opb kcolor 2 gnm 4 3
+    # cnfgen kclique 3 gnp 6 .5 plantclique 3 addedges 2 splitedges 1
     return _cmd(34, si)
 
 
@@ -575,7 +578,7 @@ def h_e_cmd_35(si: int) -> bool:
     pre: 0 <= si <= 3
     post: _
     """
-    # cnfgen -of latex tseitin random gnm 4 3
+    # cnfgen php glrd 4 4 2 plantbiclique 2 2 addedges 2
     return _cmd(35, si)
 
 
@@ -584,7 +587,7 @@ def h_e_cmd_36(si: int) -> bool:
     pre: 0 <= si <= 3
     post: _
     """
-    # pbgen randkcnf 3 6 5
+    # pbgen domset 2 gnd 6 3 splitedges 2 addedges 2
     return _cmd(36, si)
 
 
@@ -593,7 +596,7 @@ def h_e_cmd_37(si: int) -> bool:
     pre: 0 <= si <= 3
     post: _
     """
-    # pbgen php glrp 3 4 .5
+    # cnfgen -of opb kcolor 2 gnm 4 3
     return _cmd(37, si)
 
 
@@ -602,7 +605,7 @@ def h_e_cmd_38(si: int) -> bool:
     pre: 0 <= si <= 3
     post: _
     """
-    # pbgen kcolor 3 gnp 5 .5
+    # cnfgen -of latex tseitin random gnm 4 3
     return _cmd(38, si)
 
 
@@ -611,7 +614,7 @@ def h_e_cmd_39(si: int) -> bool:
     pre: 0 <= si <= 3
     post: _
     """
-    # pbgen tseitin 6 3
+    # pbgen randkcnf 3 6 5
     return _cmd(39, si)
 
 
@@ -620,7 +623,7 @@ def h_e_cmd_40(si: int) -> bool:
     pre: 0 <= si <= 3
     post: _
     """
-    # pbgen subsetcard 6
+    # pbgen php glrp 3 4 .5
     return _cmd(40, si)
 
 
@@ -629,7 +632,7 @@ def h_e_cmd_41(si: int) -> bool:
     pre: 0 <= si <= 3
     post: _
     """
-    # pbgen pitfall 4 2 2 2 2
+    # pbgen kcolor 3 gnp 5 .5
     return _cmd(41, si)
 
 
@@ -638,7 +641,7 @@ def h_e_cmd_42(si: int) -> bool:
     pre: 0 <= si <= 3
     post: _
     """
-    # cnfshuffle -i <data>/f6.cnf
+    # pbgen tseitin 6 3
     return _cmd(42, si)
 
 
@@ -647,5 +650,32 @@ def h_e_cmd_43(si: int) -> bool:
     pre: 0 <= si <= 3
     post: _
     """
-    # cnfshuffle -i <data>/f10.cnf -p
+    # pbgen subsetcard 6
     return _cmd(43, si)
+
+
+def h_e_cmd_44(si: int) -> bool:
+    """
+    pre: 0 <= si <= 3
+    post: _
+    """
+    # pbgen pitfall 4 2 2 2 2
+    return _cmd(44, si)
+
+
+def h_e_cmd_45(si: int) -> bool:
+    """
+    pre: 0 <= si <= 3
+    post: _
+    """
+    # cnfshuffle -i <data>/f6.cnf
+    return _cmd(45, si)
+
+
+def h_e_cmd_46(si: int) -> bool:
+    """
+    pre: 0 <= si <= 3
+    post: _
+    """
+    # cnfshuffle -i <data>/f10.cnf -p
+    return _cmd(46, si)
